@@ -22,14 +22,19 @@ func harnessC05Panics() {
 		bopts = append(bopts, WithObservability(&c20Obs{})) // recovery must not depend on the observability layer
 	}
 	var bus *EventBus
-	if withPH {
-		bopts = append(bopts, WithPanicHandler(func(ev any, ht reflect.Type, val any) {
-			c01Mu.Lock()
-			panics = append(panics, c05Panic{ev, ht, val})
-			c01Mu.Unlock()
-		}))
+	ph := func(ev any, ht reflect.Type, val any) {
+		c01Mu.Lock()
+		panics = append(panics, c05Panic{ev, ht, val})
+		c01Mu.Unlock()
+	}
+	viaSetter := withPH && vBool() // installed with SetPanicHandler after construction instead of the option
+	if withPH && !viaSetter {
+		bopts = append(bopts, WithPanicHandler(ph))
 	}
 	bus = New(bopts...)
+	if viaSetter {
+		bus.SetPanicHandler(ph)
+	}
 	n := vInt(1, N)
 	type hd struct {
 		once, async, seq, ctxAware, panics bool
